@@ -152,6 +152,8 @@ MonGet ==
     \* C04 speaks about reads too: "every latest-checkpoint read is a note whose text is the log's, with the log's signature and exactly one valid
     \* signature of each witness key" - the projection of the bytes read (tree, extension, number of valid lines) is that of the note last accepted
     /\ Check("C04", "ReadIsTheCosignedNoteLastAccepted", Ev.failed \/ ReadExactStep(stored, stored', last'))
+    \* ... and the bundled HTTP client hands the caller those bytes, all of them, however long the checkpoint is
+    /\ Check("C04", "ClientReadIsTheWholeNote", Ev.failed \/ ~(Ev.status = 200 /\ Ev.log \in Logs /\ stored[Ev.log] # None) \/ Ev.client = "bytes")
     \* C07: a read never leaves a transaction or the connection behind, and only fails when a failure was injected
     /\ (Ev.frun => /\ Check("C07", "ReadLeavesNothingOpen", Ev.opentx = 0 /\ Ev.inuse = 0)
                     /\ Check("C07", "ReadFailsOnlyOnInjectedFailure", Ev.failed => Ev.fired # <<>>))
